@@ -197,6 +197,68 @@ impl Property for C13 {
             }
         }
         ctx.subspace(&format!("fixed family of trees of depth <= {d} x 11 option vectors"), total, true);
+        // ---------------- a block-scalar string below every chain of positions ---------------
+        // (the indentation indicator and the body column of a block scalar depend on the whole
+        // chain of positions above it: dash, key, variant label, struct-variant field ...)
+        {
+            const LEAVES: [&str; 6] = [" lead\nsecond\n", " word word word word word word word word word word word word word word word word word w\nnext line\n", "a\nb", "line\n", "two\nlines\n\n", "  two blanks\nx"];
+            fn wrap(pos: usize, t: Ty, v: DV) -> (Ty, DV) {
+                fn b<T>(x: T) -> Box<T> {
+                    Box::new(x)
+                }
+                match pos {
+                    0 => (Ty::Seq(b(t)), DV::Seq(vec![v])),
+                    1 => (Ty::Map(b(Ty::Str), b(t)), DV::Map(vec![(DV::Str("k".into()), v)])),
+                    2 => (Ty::Struct(vec![Ty::Int, t], false), DV::Struct(vec![DV::Int(1), v])),
+                    3 => (Ty::Enum(vec![VK::Unit, VK::New(b(t))]), DV::Var(1, vec![v])),
+                    4 => (Ty::Enum(vec![VK::Unit, VK::St(vec![Ty::Int, t])]), DV::Var(1, vec![DV::Int(7), v])),
+                    5 => (Ty::Enum(vec![VK::Unit, VK::Tup(vec![Ty::Int, t])]), DV::Var(1, vec![DV::Int(7), v])),
+                    6 => (Ty::Tuple(vec![Ty::Int, t]), DV::Seq(vec![DV::Int(7), v])),
+                    _ => (Ty::Opt(b(t)), DV::Some(b(v))),
+                }
+            }
+            let mut opt_sets = vec![];
+            for indent in [2usize, 3, 4, 8] {
+                for compact in [false, true] {
+                    for wrap_w in [80usize, 8] {
+                        opt_sets.push(SerOpts { indent, compact, wrap: wrap_w, ..SerOpts::default() });
+                    }
+                }
+            }
+            let max_len = ctx.tier.pick(4u32, 5u32);
+            let mut idx = 0u64;
+            for len in 1..=max_len {
+                for code in 0..8u32.pow(len) {
+                    let chain: Vec<usize> = (0..len).map(|i| ((code / 8u32.pow(i)) % 8) as usize).collect();
+                    // (Option<Option<T>> has no YAML form of its own)
+                    if chain.windows(2).any(|w| w[0] == 7 && w[1] == 7) {
+                        continue;
+                    }
+                    for (li, leaf) in LEAVES.iter().enumerate() {
+                        for (oi, o) in opt_sets.iter().enumerate() {
+                            idx += 1;
+                            if !ctx.mine(idx) {
+                                continue;
+                            }
+                            // quick: one leaf per (chain, option set) in rotation; thorough: all
+                            if ctx.tier.pick(true, false) && len == max_len && (code as usize + oi) % LEAVES.len() != li {
+                                continue;
+                            }
+                            let (mut t, mut v) = (Ty::Str, DV::Str(leaf.to_string()));
+                            for p in &chain {
+                                let (t2, v2) = wrap(*p, t, v);
+                                t = t2;
+                                v = v2;
+                            }
+                            let c = Case { ty: t, val: v, opts: o.clone() };
+                            ctx.case("block-string-below-position-chains", &c, true);
+                        }
+                    }
+                }
+            }
+            ctx.subspace("chains of <= 4 (thorough 5) positions from {sequence item, map value, struct field, newtype / struct / tuple variant payload, tuple item, Some} above 6 block-scalar strings x indent {2,3,4,8} x compact x wrap {80,8} (quick: the longest chains with one leaf per option set in rotation)", idx, ctx.tier.pick(false, true));
+        }
+
         let strat = (ds::arb_typed(4), 0u32..(1 << 14)).prop_map(|((ty, val), ob)| Case { ty, val, opts: SerOpts::from_bits(ob) });
         ctx.run_strategy("random-trees", 1, ctx.tier.pick(150_000, 1_500_000), &strat, nontrivial);
         let strat = (ds::arb_typed(5),).prop_map(|((ty, val),)| Case { ty, val, opts: SerOpts::default() });
